@@ -3,5 +3,5 @@ CONSTANTS
   Size = 0
   MaxStmts = 2
   Fams = {"expr", "bind", "struct"}
-INVARIANTS Generated InRange InlineInvariant ExprLaws ComparisonSound ProjectionComplete Export
+INVARIANTS Consistent Export
 CHECK_DEADLOCK FALSE
